@@ -990,3 +990,59 @@ Proof.
   rewrite scan_ints_render by assumption.
   unfold spec_import. f_equal. f_equal. rewrite map_map. apply map_ext_Forall. assumption.
 Qed.
+
+(* ------------------------------------------------------------------------------------------ *)
+(** * Equal content -> hdiff reports nothing *)
+
+Lemma list_eqb_eq {A} (e : A -> A -> bool) : (forall x y, e x y = true -> x = y) ->
+  forall a b, list_eqb e a b = true -> a = b.
+Proof.
+  intros H. induction a as [|x a IH]; intros [|y b] E; simpl in E; try discriminate; [reflexivity|].
+  apply andb_true_iff in E. destruct E as [E1 E2]. f_equal; [apply H; assumption | apply IH; assumption].
+Qed.
+
+Lemma attr_eqb_eq x y : attr_eqb x y = true -> x = y.
+Proof.
+  unfold attr_eqb. intros E. apply andb_true_iff in E. destruct E as [E E3]. apply andb_true_iff in E. destruct E as [E1 E2].
+  apply zlist_eqb_eq in E1, E3. apply Z.eqb_eq in E2. destruct x, y; simpl in *. congruence.
+Qed.
+
+Lemma field_eqb_eq x y : field_eqb x y = true -> x = y.
+Proof.
+  unfold field_eqb. intros E. apply andb_true_iff in E. destruct E as [E E3]. apply andb_true_iff in E. destruct E as [E1 E2].
+  apply zlist_eqb_eq in E1. apply Z.eqb_eq in E2, E3. destruct x as [n [t o]], y as [n' [t' o']]; simpl in *. congruence.
+Qed.
+
+Ltac c19_split E :=
+  repeat match type of E with (_ && _) = true => let E' := fresh "E" in apply andb_true_iff in E; destruct E as [E E'] end.
+
+Lemma body_eqb_eq x y : body_eqb x y = true -> x = y.
+Proof.
+  destruct x, y; simpl; intros E; try discriminate; try reflexivity.
+  - c19_split E. apply Z.eqb_eq in E. apply zlist_eqb_eq in E2, E1. apply (list_eqb_eq _ attr_eqb_eq) in E0. congruence.
+  - c19_split E. apply Z.eqb_eq in E, E3, E2, E1. apply zlist_eqb_eq in E0. congruence.
+  - c19_split E. apply Z.eqb_eq in E. apply (list_eqb_eq _ field_eqb_eq) in E1. apply zlist_eqb_eq in E0. congruence.
+Qed.
+
+Lemma obj_eqb_eq x y : obj_eqb x y = true -> x = y.
+Proof.
+  unfold obj_eqb. intros E. apply andb_true_iff in E. destruct E as [E1 E2]. apply zlist_eqb_eq in E1. apply body_eqb_eq in E2.
+  destruct x, y; simpl in *. congruence.
+Qed.
+
+Lemma attr_in_In a l : attr_in a l = true -> In a l.
+Proof. unfold attr_in. intros E. apply existsb_exists in E. destruct E as (b & Hb & E). apply attr_eqb_eq in E. subst. assumption. Qed.
+
+Lemma same_content_exit0_lemma : forall f1 f2,
+  NoDup (map a_name (f_gattrs f1)) -> NoDup (map a_name (f_gattrs f2)) ->
+  same_content f1 f2 = true -> hdiff_m f1 f2 = 0 /\ hdiff_exit_m f1 f2 = spec_exit f1 f2.
+Proof.
+  intros f1 f2 N1 N2 S. assert (E : hdiff_m f1 f2 = 0).
+  { unfold same_content in S. apply andb_true_iff in S. destruct S as [S1 S2].
+    apply (list_eqb_eq _ obj_eqb_eq) in S1. unfold attrs_same in S2. apply andb_true_iff in S2. destruct S2 as [A B].
+    rewrite forallb_forall in A, B.
+    unfold hdiff_m. rewrite S1, match_m_refl. simpl. apply gattr_zero_iff. split.
+    - intros a Ha. exists a. split; [|apply attr_agree_refl]. apply find_attr_self; [assumption|]. apply attr_in_In, A, Ha.
+    - intros b Hb. rewrite (find_attr_self (f_gattrs f1) b N1) by (apply attr_in_In, B, Hb). discriminate. }
+  split; [assumption|]. unfold hdiff_exit_m, spec_exit. rewrite E, S. reflexivity.
+Qed.
